@@ -14,13 +14,16 @@ META = {
         "the real three-pass glue end to end at a smaller bound with the table replaced by its specification",
     ],
     "outside": [
-        "checksum features (COMPAT_CHECKSUM v1, CSUM_V2, CSUM_V3 incl. 10/14/16-byte tags, async-commit checksum tolerance, "
-        "commit-time heuristic for stale blocks): not built",
+        "checksummed journals are decided per pass only (scan: v1 sync+async, v2, v3 with the commit-time rule for stale blocks; replay: v1, "
+        "v2, v3 tag checksums, thorough tier) with the crc primitives as T-stubs (one symbolic word per journal block); NOT covered: the "
+        "three-pass recover harness with checksums, async_commit with v2/v3 (a later checksum failure moves end_transaction forward "
+        "again), what do_one_pass does with further blocks carrying the id of a commit it just reported as failed (it leaves only the "
+        "switch, not the loop), transaction id 0 (used as 'unset' for end_transaction / j_failed_commit), real CRC values",
         "fast commit (j_fc_replay_callback == NULL), version-1 journal superblocks, external-journal device plumbing, jbd2_journal_bmap through an inode",
         "block sizes >= 1024 (tag capacity per descriptor > 6), logs longer than 7 blocks, more than 2 revoke blocks x 3 records",
-        "e2fsck_journal_load / e2fsck_journal_release / recover_ext3_journal / e2fsck_run_ext3_journal and the debugfs equivalents "
-        "(journal superblock reset s_start = 0, needs_recovery flag): only the ordering core (order harness: data durable before "
-        "jbd2_journal_recover returns) is decided",
+        "e2fsck_journal_load / ext2fs_journal_load / *_get_journal (journal location, superblock validation); the e2fsck front-end's "
+        "ordering is harness C04/protocol, the debugfs front-end's is dbg_protocol here (event-level: flush / recover / reset / free / "
+        "re-open order, flags, error propagation), both over the specification of jbd2_journal_recover that order/recover establish",
         "the real revoke hash table inside the three-pass query (memory): replaced there by its specification, proven separately",
         "the real hash_64 value (only its range is decided; revoke_table holds for every hash function)",
         "I/O errors during recovery (a failed replay write is recorded in b_err, which nobody reads)",
@@ -106,13 +109,14 @@ HARNESSES = [
                        dict(Q, FEAT_64BIT=0, FEAT_CSUM=1, REF_MAXWALK=4, **T),
                        dict(Q, FEAT_64BIT=0, FEAT_CSUM=1, FEAT_ASYNC=1, REF_MAXWALK=4, **T),
                        dict(Q, FEAT_64BIT=0, FEAT_CSUM=2, REF_MAXWALK=4),
-                       dict(Q, FEAT_64BIT=1, FEAT_CSUM=3, REF_MAXWALK=4),
+                       dict(Q, FEAT_64BIT=1, FEAT_CSUM=3, REF_MAXWALK=4, **T),
                        dict(Q, FEAT_64BIT=0, REF_MAXWALK=6, **T),
                        dict(FEAT_64BIT=0, REF_MAXWALK=4, **T),          # s_first symbolic
                        dict(Q, FEAT_64BIT=0, NJ=8, REF_MAXWALK=5, **T)]),
          unwind=3, cbmc_flags=FS, backends=["default", "kissat"], cap_quick=200,
          bound="journal of 6 (thorough: 8) blocks of 64 bytes, every byte symbolic (up to 6 tags per descriptor); s_start, s_sequence "
-               "symbolic, s_first 1 (thorough: symbolic); log walk <= 4 (thorough: 6) header blocks; tag size 8 and 12 (64bit)"),
+               "symbolic, s_first 1 (thorough: symbolic); log walk <= 4 (thorough: 6) header blocks; tag size 8 and 12 (64bit); "
+               "checksum v1 (walk 3; thorough 4, async), v2 (10-byte tags), v3 (16-byte tags) with one symbolic checksum word per block"),
     dict(name="revoke_table", src="revoke_table.c",
          funcs=["jbd2_journal_set_revoke", "jbd2_journal_test_revoke", "find_revoke_record", "insert_revoke_hash",
                 "jbd2_journal_clear_revoke", "jbd2_journal_init_revoke", "jbd2_journal_destroy_revoke"],
@@ -148,8 +152,9 @@ HARNESSES = [
                "s_start 1 (thorough: 4 = data blocks wrap, and symbolic)"),
     dict(name="recover", src="recover.c",
          funcs=["jbd2_journal_recover", "do_one_pass", "scan_revoke_records", "count_tags", "read_tag_block", "jread"],
-         configs=cfgs([dict(Q, FEAT_64BIT=0, START=1, B=32, NFS=3, REF_MAXWALK=3, REF_MAXREV=1, REF_MAXRB=1, _unwindset=rm_uw(1)),
-                       dict(Q, FEAT_64BIT=0, START=1, B=32, NFS=3, REF_MAXWALK=3, REF_MAXREV=1, REF_MAXRB=1, DEBUGFS=None, _unwindset=rm_uw(1)),
+         # the e2fsck flavour runs in the quick tier as harness "order" (same source + durable store, every assertion of recover included)
+         configs=cfgs([dict(Q, FEAT_64BIT=0, START=1, B=32, NFS=3, REF_MAXWALK=3, REF_MAXREV=1, REF_MAXRB=1, DEBUGFS=None, _unwindset=rm_uw(1)),
+                       dict(Q, FEAT_64BIT=0, START=1, B=32, NFS=3, REF_MAXWALK=3, REF_MAXREV=1, REF_MAXRB=1, _unwindset=rm_uw(1), **T),
                        dict(Q, FEAT_64BIT=0, START=3, B=40, NFS=3, REF_MAXWALK=4, REF_MAXREV=2, REF_MAXRB=1, _unwindset=rm_uw(2), **T),
                        dict(Q, FEAT_64BIT=1, START=1, B=32, NFS=3, REF_MAXWALK=3, REF_MAXREV=1, REF_MAXRB=1, _unwindset=rm_uw(1), **T)]),
          unwind=3, cbmc_flags=FS, backends=["kissat", "default"], cap_quick=300,
@@ -176,8 +181,10 @@ MANIFEST = {
             "uncommitted / wrongly-sequenced suffixes, revoke records) the end of the log, the revoke set and the replayed filesystem "
             "bytes equal the reference's, blocks outside committed unrevoked transactions are untouched, the log restarts past the "
             "first uncommitted id, and all replayed data is flushed before recovery returns. Decided per pass at the larger bound and "
-            "for the whole three-pass function at a smaller one.",
+            "for the whole three-pass function at a smaller one. Checksummed journals (v1/v2/v3) per pass with the CRC as a per-block "
+            "symbolic word. The debugfs front-end's effect order (flush of the stale handle before the replay, journal reset after "
+            "the synced replay, stale handle dropped without a flush, re-open, flags, errors) is decided on the real ext2fs_run_ext3_journal.",
     "note": "Trusted: CBMC's C semantics, the array-backed buffer layer, the reference model (jbd2_ref.h, written from the on-disk format). "
-            "Checksummed journals, fast commit, the journal-superblock reset and needs_recovery handling of the front-ends are outside. "
+            "Real CRC values, fast commit, journal loading/validation are outside. "
             "Blocks are 32-64 bytes, logs <= 7 blocks; bounds per harness in the evidence.",
 }
